@@ -106,6 +106,10 @@ def run_shard(rec, tier, seed, shard, nshards):
                         kw["observations"] = obs
                     if rng.random() < 0.3:
                         kw["control_treatment_name"] = ""
+                    if rng.random() < 0.15:
+                        # the control name taken out of a name array or a table column: a numpy string (which is a str)
+                        kw["control_treatment_name"] = np.array([kw["control_treatment_name"]])[0]
+                        rec.count("screens_with_a_numpy_string_as_control_name")
                     s = Screen(**kw)
                 elif kind == "merged":
                     # a screen whose plates were merged in place (what the merge smoothers do) before it is saved
